@@ -125,9 +125,14 @@ def openssl_class(name):
     return _OSSL_CLASS[name]
 
 
-def build_generator(spec, cfg, entropy_f=fixed_entropy):
-    """a fresh generator object (never the shipped one)"""
+def build_generator(spec, cfg, entropy_f=fixed_entropy, basis=None):
+    """a fresh generator object (never the shipped one); basis: another point of the same prime-order group to serve as
+    base point (a second generator H = m*G, as commitment schemes use) instead of the standard one"""
     c = ref_curve(spec)
+    if basis is not None:
+        import copy
+        c = copy.copy(c)
+        c.G = tuple(basis)
     if cfg == "pure":
         cls = Generator
     elif cfg == "openssl":
